@@ -4,6 +4,8 @@ Monitor (E2): the real run() coroutine of every shipped periodic service runs un
 MockClock next to a scripted environment; recording pools timestamp every read and write
 with the virtual clock; the oracle compares the timestamps with start + k*interval.
 """
+import weakref
+
 from vlib import core, probe, vt
 from vlib.doubles import RecPool
 
@@ -15,7 +17,7 @@ META = {
     "rule": (
         "seeded random runs of LinearController, RelativeSupplyController, Stepwise, DemandSwitch, Buffer and "
         "FactoryPool services: dyadic intervals/windows 0.25..64 (15 % of the controller runs use intervals such as 0.1, 0.3, 1/3, 1.1 instead; there only the number and approximate times of the steps are judged), start times that are and are not multiples of "
-        "the interval, run lengths 0.5..300 intervals plus a few long runs (2500 intervals in the quick, 10^4 in the thorough tier), 0-60 timed environment "
+        "the interval, run lengths 0.5..300 intervals plus a few long runs (2500 intervals in the quick, 10^4 in the thorough tier), (a quarter of the Buffer runs: one write per window alternating between two values a hair apart; 30 % of the FactoryPool runs: children only the pool references), 0-60 timed environment "
         "actions (pool state changes, demand writes through the Buffer, outside changes of the Buffer's target, "
         "demand writes to the FactoryPool) placed strictly between period boundaries or exactly on them. "
         "Non-trivial = run of >= 3 periods; distinct by content."
@@ -67,21 +69,27 @@ def gen_case(rnd, spec):
             act = ["state", rnd.randint(0, 8) / 8, rnd.randint(0, 8) / 8, rnd.randint(0, 40)]
         elif kind == "buffer":
             act = rnd.choice([["write", rnd.randint(0, 50)], ["write", rnd.randint(0, 50)], ["outside", rnd.randint(0, 50)]])
+
         else:
             act = rnd.choice([["demand", rnd.randint(0, 30)], ["child_zero", rnd.randint(0, 5)], ["child_supply", rnd.randint(0, 5), rnd.randint(0, 6)]])
         actions.append([t, frac == 0, act])
+    near = None
+    if kind == "buffer" and rnd.random() < 0.25 and periods <= 400:
+        # one write per window, alternating between two values that differ by a hair: a change is a change
+        near = rnd.choice([[1e10, 1e10 + 1], [4e9, 4e9 + 1.5], [0.3, 0.1 + 0.2], [2.0**53, 2.0**53 + 2], [1.0, 1.0 + 2**-40]])
+        actions = [[start + (k + 0.5) * interval, False, ["write", near[k % 2]]] for k in range(int(periods))]
     actions.sort(key=lambda a: a[0])
     params = {}
     if kind == "linear":
         params = {"rate": rnd.choice([1, 2, 0.5, 4]), "low_utilisation": 0.5, "high_allocation": rnd.choice([0.5, 0.75])}
     elif kind == "factory":
-        params = {"initial": rnd.randint(0, 3), "sizes": rnd.choice([[1], [2], [1, 3], [1, 2, 5]])}
+        params = {"initial": rnd.randint(0, 3), "sizes": rnd.choice([[1], [2], [1, 3], [1, 2, 5]]), "weak": rnd.random() < 0.3}
     elif kind == "buffer":
         # the pending value may differ from the target's demand when the service starts
         params = {"prestart": rnd.choice([None, None, ["write", rnd.randint(0, 50)], ["outside", rnd.randint(0, 50)]])}
     elif kind == "switch":
         params = {"slave_interval": rnd.choice([1, 7, 0.5, 10]), "start_demand": rnd.choice([10, 20, 40])}
-    return {"kind": kind, "interval": interval, "start": start, "periods": periods, "actions": actions, "params": params, "fractional": fractional,
+    return {"kind": kind, "interval": interval, "start": start, "periods": periods, "actions": actions, "params": params, "fractional": fractional, "near": near,
             "default_interval": kind not in ("buffer", "factory") and interval == 1 and rnd.random() < 0.5}
 
 
@@ -151,10 +159,19 @@ def execute(case, result):
     else:
         sizes = case["params"]["sizes"]
 
+        weak_refs, weak_last = [], []
+
         def factory():
             child = RecPool(demand=sizes[len(factory_calls) % len(sizes)], supply=0, clock=vt.clock)
             factory_calls.append(vt.clock())
-            children.append(child)
+            if case["params"].get("weak"):
+                # nobody but the pool holds on to this child; the harness keeps a weak reference and the last demand written
+                i = len(weak_refs)
+                weak_last.append(child.peek()["demand"])
+                child.on_write = lambda _self, value, i=i: weak_last.__setitem__(i, value)
+                weak_refs.append(weakref.ref(child))
+            else:
+                children.append(child)
             return child
 
         initial = [RecPool(demand=1, supply=1, clock=vt.clock) for _ in range(case["params"]["initial"])]
@@ -190,7 +207,8 @@ def execute(case, result):
     if kind == "factory" and n_periods <= 400 and hasattr(svc, "_hatchery"):
         def fsnap(tag, k):
             def act():
-                kids = list(children)
+                # the children known to the harness plus those only the pool holds (weak mode), taken from the pool for this instant
+                kids = list(children) + [c for c in list(svc._hatchery) + list(svc._mortuary) if not any(c is k_ for k_ in children)]
                 fsnaps[(tag, k)] = {"hatchery": set(map(id, svc._hatchery)), "demand": {id(c): c.peek()["demand"] for c in kids},
                                     "request": svc.demand, "supply": sum(c.peek()["supply"] for c in kids)}
             return act
@@ -218,6 +236,8 @@ def execute(case, result):
         bad("run() ended before the service was cancelled")
         return problems
     result.count("%s_runs" % kind)
+    if case.get("near"):
+        result.count("buffer_writes_of_nearly_equal_values", len(case["actions"]))
     expected_steps = [start + k * interval for k in range(0, n_periods + 1) if start + k * interval < until]
     if kind in ("linear", "relative", "stepwise", "switch"):
         if kind in ("linear", "relative"):
@@ -339,6 +359,15 @@ def execute(case, result):
                 break
             if idle or missing > 0:
                 result.count("factory_needed_adjustments_observed")
+        if case["params"].get("weak"):
+            import gc
+
+            gc.collect()
+            gone = [i for i, r in enumerate(weak_refs) if r() is None and weak_last[i] != 0]
+            if gone:
+                bad("children %s made by the factory vanished between adjustments although they still had demand %s and were never "
+                    "released (only the pool held them)" % (gone[:5], [weak_last[i] for i in gone[:5]]))
+            result.count("factory_runs_with_children_only_the_pool_holds")
         result.count("factory_adjustments_checked", len(touched))
         result.count("factory_children_spawned", len(factory_calls))
     return problems
@@ -364,7 +393,8 @@ def finish(total, tier):
     need = ["%s_runs" % k for k in KINDS] + ["steps_checked", "linear_pairs_checked", "buffer_target_writes",
                                               "buffer_boundaries_checked", "factory_adjustments_checked", "factory_children_spawned",
                                               "factory_needed_adjustments_observed", "switch_slave_steps_checked", "stepwise_step_effects_checked",
-                                              "buffer_runs_with_pending_value_at_start", "runs_with_intervals_that_are_not_dyadic"]
+                                              "buffer_runs_with_pending_value_at_start", "runs_with_intervals_that_are_not_dyadic", "factory_runs_with_children_only_the_pool_holds",
+                                              "buffer_writes_of_nearly_equal_values"]
     for name in need:
         if not total.counters.get(name) and not total.violations:
             total.inconc("monitor never observed: " + name)
